@@ -17,8 +17,9 @@ CLAIMS = {
         'multiple, cursor advances by the reserved size, label bound to its line\'s address) and contracts on every byte_size / '
         'generate_bytes implementation (emitted == reserved), all overrides verified against the same abstract contract text.',
    note='The induction from the per-line block contract to the whole-program statement (every line directly follows its predecessor '
-        'in the zone) is argued in DESIGN.md, not machine-checked; DataLine / InstructionLine.generate_bytes are assumed contracts; '
-        'expression evaluation is an assumed deterministic contract (C07 verifies its arithmetic).'),
+        'in the zone) is argued in DESIGN.md, not machine-checked; every generate_bytes implementation (DataLine and InstructionLine included) '
+        'is verified against the same emitted == reserved contract; AssembledInstruction.get_bytes is used through its abstract contract '
+        '(length == byte_size); expression evaluation is an assumed deterministic contract (C07 verifies its arithmetic).'),
  'C03': dict(tech='contract-based deductive verification (pyvc + z3): block contracts on the image construction of the engine and on the CLI window parameters',
    text='Block contracts on the engine\'s address->byte map construction (per line) and on the window emission loop: offset a-start '
         'holds the assembled byte or the fill value, explicit windows have length end-start+1, the default end is the highest emitted '
@@ -29,7 +30,7 @@ CLAIMS = {
    text='Block contract with an inductive invariant on the real second-pass loop: if it completes, all byte-producing lines '
         '(including predefined data blocks, which are in the same sorted list) occupy pairwise disjoint address ranges.',
    note='Precondition (sorted, distinct lines) is established by list.sort and the loader (assumed); the converse direction '
-        '(disjoint programs are never rejected) is not claimed; DataLine / InstructionLine.generate_bytes assumed.'),
+        '(disjoint programs are never rejected) is not claimed.'),
  'C05': dict(tech='contract-based deductive verification (pyvc + z3): MemoryZone contracts, placement block of the engine',
    text='MemoryZone.__init__ / cursor setter raise exactly outside the zone (class invariant start <= cursor <= end+1); the first-pass '
         'block proves every placed line lies inside its zone and origins relative to a zone are offset from its start.',
